@@ -310,6 +310,10 @@ var hostile1 = []uint64{0, 1, 2, 0x7f, 0x80, 0xff}
 var hostile2 = []uint64{0, 1, 2, 0x7f, 0x80, 0xff, 0x7fff, 0x8000, 0xffff, 0xfffe}
 var hostile4 = []uint64{0xffffffff, 0xfffffffe, 0x80000000, 0, 1, 2, 0x7f, 0x80, 0xff, 0x7fff, 0x8000, 0xffff, 0x10000, 1 << 24, 0x7fffffff}
 
+// values whose pairwise products leave the int32 range: 65536^2 = 2^32 (wraps to 0), 46341^2 > MaxInt32 (wraps negative),
+// (2^31-1)^2 wraps to 1, 2^24 squared wraps to 0
+var productHostile = []uint64{0x10000, 46341, 0x7fffffff, 1 << 24, 0xffff}
+
 func setField(b []byte, a ref.Annot, val uint64) {
 	for i := 0; i < a.Width && a.Off+i < len(b); i++ {
 		b[a.Off+i] = byte(val >> (8 * uint(a.Width-1-i)))
@@ -365,11 +369,27 @@ func mutateField(rt *rapid.T, b []byte, fields []ref.Annot, label string) string
 func mutate(rt *rapid.T, valid []byte, annots []ref.Annot, other []byte) ([]byte, string) {
 	b := append([]byte{}, valid...)
 	fields := mutableAnnots(annots)
-	k := rapid.IntRange(0, 11).Draw(rt, "mutation")
+	k := rapid.IntRange(0, 13).Draw(rt, "mutation")
+	var counts []ref.Annot
+	for _, a := range fields {
+		if a.Kind == "count" && a.Width == 4 {
+			counts = append(counts, a)
+		}
+	}
+	if k >= 12 && len(counts) < 2 {
+		k = rapid.IntRange(0, 11).Draw(rt, "mutation2")
+	}
 	if len(fields) == 0 && k <= 5 {
 		k = 6 + k%5
 	}
 	switch {
+	case k >= 12:
+		// every 4-byte count at once: sizes that are each plausible but whose product (rows x columns, entries x width) is not
+		val := rapid.SampledFrom(productHostile).Draw(rt, "allCounts")
+		for _, a := range counts {
+			setField(b, a, val)
+		}
+		return b, fmt.Sprintf("counts all=%#x (%d fields)", val, len(counts))
 	case k <= 4:
 		return b, "field " + mutateField(rt, b, fields, "m1")
 	case k == 5:
